@@ -841,13 +841,41 @@ type fsmTxnCommitIndexTracker struct {
 	// invalidate the list on /foo (as it adds /bar in). Luckily, we can use
 	// paginated lists to see if bar is contained in foo/'s tree already.
 	indexModifiedMap map[uint64]map[string]struct{}
+
+	// coveredFrom is the lowest transaction start index for which
+	// indexModifiedMap is known to hold every later write. The map only
+	// learns about writes applied through this tracker (so nothing at or
+	// before the index this FSM was at when it first applied an entry after
+	// startup, snapshot restore, ...) and forgets everything trimmed by
+	// clearOldEntries. A transaction which started before coveredFrom cannot
+	// conclude anything from the absence of an entry and must take the slow
+	// path. math.MaxUint64 means that coverage has not been established yet.
+	coveredFrom uint64
 }
 
 func FsmTxnCommitIndexTracker() *fsmTxnCommitIndexTracker {
 	return &fsmTxnCommitIndexTracker{
 		sourceIndexMap:   make(map[uint64]int, physical.DefaultParallelTransactions),
 		indexModifiedMap: make(map[uint64]map[string]struct{}, physical.DefaultParallelTransactions),
+		coveredFrom:      math.MaxUint64,
 	}
+}
+
+// resetCoverage is used when the underlying storage advanced without this
+// tracker seeing the individual writes (e.g., snapshot restore): coverage is
+// re-established from the index of the next applied entry.
+func (t *fsmTxnCommitIndexTracker) resetCoverage() {
+	t.l.Lock()
+	defer t.l.Unlock()
+
+	t.coveredFrom = math.MaxUint64
+}
+
+// covers holds true if every write after the given transaction start index
+// is guaranteed to be present in indexModifiedMap. Must be called with the
+// lock held.
+func (t *fsmTxnCommitIndexTracker) covers(transactionStartIndex uint64) bool {
+	return t.coveredFrom != math.MaxUint64 && transactionStartIndex >= t.coveredFrom
 }
 
 // lowestActiveIndexAfterCommit returns what will be the lowest starting index
@@ -880,6 +908,12 @@ func (t *fsmTxnCommitIndexTracker) clearOldEntries(lowestActiveIndex uint64) {
 	maps.DeleteFunc(t.indexModifiedMap, func(key uint64, _ map[string]struct{}) bool {
 		return key < lowestActiveIndex
 	})
+
+	// Writes before lowestActiveIndex are gone now: only transactions which
+	// started at or after lowestActiveIndex-1 still see all later writes.
+	if lowestActiveIndex > 0 && t.coveredFrom != math.MaxUint64 && lowestActiveIndex-1 > t.coveredFrom {
+		t.coveredFrom = lowestActiveIndex - 1
+	}
 }
 
 func (t *fsmTxnCommitIndexTracker) trackTransaction(index uint64) {
@@ -923,6 +957,12 @@ func (t *fsmTxnCommitIndexTracker) hasModifiedEntry(minIndex uint64, maxIndex ui
 	t.l.Lock()
 	defer t.l.Unlock()
 
+	if !t.covers(minIndex) {
+		// We do not know about all writes after minIndex; the entry might
+		// have been modified.
+		return 0, true
+	}
+
 	for index, modifications := range t.indexModifiedMap {
 		if index <= minIndex {
 			continue
@@ -950,6 +990,11 @@ func (t *fsmTxnCommitIndexTracker) hasModifiedListEntry(minIndex uint64, maxInde
 	normKey := key
 	if len(key) > 0 && key[len(key)-1] != '/' {
 		normKey += "/"
+	}
+
+	if !t.covers(minIndex) {
+		// See note in hasModifiedEntry(...).
+		return 0, true
 	}
 
 	for index, modifications := range t.indexModifiedMap {
@@ -1005,6 +1050,14 @@ type fsmTxnCommitIndexApplicationState struct {
 }
 
 func (t *fsmTxnCommitIndexTracker) applyState(latestAppliedIndex uint64, commandOffset int, commandIndex uint64) *fsmTxnCommitIndexApplicationState {
+	// From here on every write goes through this tracker: all writes after
+	// latestAppliedIndex will be known to it.
+	t.l.Lock()
+	if t.coveredFrom == math.MaxUint64 {
+		t.coveredFrom = latestAppliedIndex
+	}
+	t.l.Unlock()
+
 	return &fsmTxnCommitIndexApplicationState{
 		parent:             t,
 		latestAppliedIndex: latestAppliedIndex,
